@@ -48,6 +48,14 @@ func (m *Machine) envIntrinsic2(name string, fn *ssa.Function, args []Value) (Va
 		if e.now == nil {
 			m.unsupported("time.Now without a harness clock (vrt.SetClock)")
 		}
+		e.nowCalls++
+		if e.driftMax > 0 && e.nowCalls > 1 {
+			// the wall clock advances between readings: each later reading adds an arbitrary delay
+			m.sideEffect(name)
+			d := c.Var(fmt.Sprintf("clockd_%d", e.nowCalls), SU32)
+			m.assertPC(c.Le(d, c.IntI(SU32, e.driftMax)))
+			e.now = c.Arith(OAdd, e.now, d)
+		}
 		return m.timeValue(e.now), true
 	case "(time.Time).IsZero":
 		t := args[0].(*StructV)
